@@ -230,7 +230,7 @@ def merge_source(doc_type: str):
     return source, pics
 
 
-def history(seed: int, nsteps: int = 10, sources=None, forced=None) -> list:
+def history(seed: int, nsteps: int = 10, sources=None, forced=None, forced_how=None) -> list:
     from odfdo import Document, DrawPage, Paragraph, Style, Table
 
     rng = random.Random(seed)
@@ -250,7 +250,7 @@ def history(seed: int, nsteps: int = 10, sources=None, forced=None) -> list:
             # the model starts from the document's own view
             init_parts = None
         else:
-            how = rng.choice(("path", "bytesio", "folder"))
+            how = forced_how or rng.choice(("path", "bytesio", "folder"))
             if how == "path":
                 p = tmp / ("src" + Path(src).suffix)
                 shutil.copy(src, p)
@@ -277,7 +277,8 @@ def history(seed: int, nsteps: int = 10, sources=None, forced=None) -> list:
         else:
             mem, mpaths, _files, _ok = project_package(init_parts, ids)
             ev = {"op": "open", "src": Path(src).name, "how": how, "mem": mem, "mf": mpaths}
-            ev["view"] = doc_view(doc, rng.sample(sorted(mem), min(len(mem), 4)), ids)
+            if not forced_how:
+                ev["view"] = doc_view(doc, rng.sample(sorted(mem), min(len(mem), 4)), ids)
         events.append(ev)
         known = set(mem)
         handles = {}
@@ -578,7 +579,30 @@ def flat_ok(path: Path, doc) -> bool:
             out[e.tag] += 1
         return out
 
-    return tags(body_flat) == tags(body_mem)
+    if tags(body_flat) != tags(body_mem):
+        return False
+    # every picture the content refers to and the package holds is embedded (same bytes), in document order
+    import base64
+
+    href = "{http://www.w3.org/1999/xlink}href"
+    flat_imgs = list(body_flat.iter(dimg))        # (the pictures of the body; those of master pages are not looked at)
+    mem_imgs = list(body_mem.iter(dimg))
+    if len(flat_imgs) != len(mem_imgs):
+        return False
+    for f, m in zip(flat_imgs, mem_imgs):
+        url = m.get(href)
+        if not url:
+            continue
+        try:
+            data = doc.get_part(url[2:] if url.startswith("./") else url)
+        except Exception:  # noqa: BLE001
+            data = None
+        if not isinstance(data, bytes):
+            continue      # not a part of this package (external picture, deleted part): nothing to embed
+        bd = f.find(ons + "binary-data")
+        if bd is None or base64.b64decode((bd.text or "").encode()) != data:
+            return False
+    return True
 
 
 def lazy_clone_history(seed: int) -> list:
@@ -636,6 +660,12 @@ def lazy_clone_history(seed: int) -> list:
 
 def _gen(args):
     seed, n, sources = args
+    if isinstance(sources, tuple) and sources[0] == "flat-sweep":
+        # every sample file, opened in each way and exported to flat XML before anything else was read, then again after a zip save
+        i = sources[1]
+        files = [str(p) for p in sample_files()]
+        return history(seed, 3, [files[i % len(files)]], forced_how=("path", "bytesio", "folder")[i // len(files) % 3],
+                       forced=[{"op": "save", "packaging": "xml"}, {"op": "save", "packaging": "zip"}, {"op": "save", "packaging": "xml"}])
     if isinstance(sources, tuple) and sources[0] == "retype-sweep":
         # every document type of the standard x every packaging: declared, saved, reopened
         i = sources[1]
@@ -651,6 +681,8 @@ def _gen(args):
 def generate(ntraces: int, seed: int, nsteps: int = 10, procs=None, sources=None) -> list:
     procs = procs or min(16, os.cpu_count() or 4)
     jobs = [(seed * 1_000_033 + i, nsteps, sources) for i in range(ntraces)]
+    if sources == "flat-sweep":
+        jobs = [(seed * 1_000_033 + i, nsteps, ("flat-sweep", i)) for i in range(3 * len(sample_files()))]
     if sources == "retype-sweep":
         jobs = [(seed * 1_000_033 + i, nsteps, ("retype-sweep", i)) for i in range(3 * len(ODF_TYPES))]
     with mp.get_context("fork").Pool(procs) as pool:
